@@ -421,6 +421,16 @@ Proof.
   destruct res as [x |]; [exact E | apply reentries_no_exit].
 Qed.
 
+Theorem system_exit_never_escapes_history :
+  forall w allow force store search catch steps s, fst (run_history w allow force store search catch steps s) <> Some XSystemExit.
+Proof.
+  intros w a fo store search catch steps. induction steps as [| h r IH]; intros s; simpl; [discriminate |].
+  pose proof (system_exit_never_escapes w a fo store (hs_submodules h) search (hs_root h) (hs_later h) s) as E.
+  destruct (session w a fo store (hs_submodules h) search (hs_root h) (hs_later h) s) as [res s1]. simpl in E.
+  destruct res as [x |]; [| apply IH].
+  destruct (caught_by catch x); [apply IH | exact E].
+Qed.
+
 (* ... nor any public entry point *)
 Theorem system_exit_never_escapes_entry :
   forall allow force store phs s, fst (run_phases allow force store phs s) <> Some XSystemExit.
